@@ -114,8 +114,8 @@ def replay_case(case):
     from ..doubles import split_columns
 
     tab2 = {k: split_columns(int(v), p, rng) for k, v in table.items()}
-    det = PELT(cost=TableCost(tab2, p=p, size=1), penalty_scale=beta / (2 * p * math.log(n)),
-               min_segment_length=m)
+    det = PELT(cost=TableCost(tab2, p=p, size=1, int_out=bool((n + m + beta) % 2)), penalty_scale=beta / (2 * p * math.log(n)),
+               min_segment_length=m)      # every second case: the cost returns an int64 array
     Xp = np.zeros((n, p))
     det.fit(Xp)
     out = det.predict(Xp)
@@ -175,7 +175,7 @@ def record_r1(seed, count, nmax):
         beta = int(rng.integers(0, 6))
         v = int(rng.integers(1, 5))
         C = _random_table(rng, n, v)
-        cost = TableCost({k: [float(x)] for k, x in C.items()}, p=1, size=1)
+        cost = TableCost({k: [float(x)] for k, x in C.items()}, p=1, size=1, int_out=bool(rng.integers(0, 2)))
         X = np.zeros((n, 1))
         if i % 2:
             scores, cps = run_pelt(X, cost, beta, m)
